@@ -120,6 +120,25 @@ CLAIMS.update({
         ref="§7 C13"),
 })
 
+CLAIMS.update({
+    "C12": dict(
+        technique="Lean 4 proof that the index-chain walk of calculate_unit multiplies by a quotient of weights (linear, invertible, transitive) for every multiplying code executor, bridge and cross-kind theorems, kernel-decided data obligations equating the regenerated tables with the standard unit definitions + exhaustive pair enumeration against exact rationals",
+        text="Proof over Rat, for every family whose indices are contiguous and whose neighbouring codes are mutually inverse and every code executor that "
+             "multiplies by the factor its code denotes: converting from position p to q returns amount * weight p / weight q (calc_factor via "
+             "calculateUnit_weights, induction over the walk in both directions), factors are invertible and transitive (factor_inverse, factor_trans), A to B "
+             "and back is the identity (round_trip), A to B to C = A to C (via_third); convert inside a family and through a bridge in both directions "
+             "(convert_in_family, convert_across_bridge, convert_across_bridge_rev); a target name outside the own and the bridged family yields nothing "
+             "(cross_kind_none). Data obligations re-decided by the kernel on the tables regenerated from config.json: every family is such a chain "
+             "(gen_chains), its weights ARE the standard definitions (gen_weights_*: 12 in = 1 ft, 3 ft = 1 yd, 1760 yd = 1 mile, 16 oz = 1 lb, 14 lb = 1 stone, "
+             "decimal prefixes, 8 bit = 1 byte, 1024 multiples), bridges are 1 in = 25.4 mm and 1 oz = 28349.5231 mg with inverse codes (gen_bridges), "
+             "names of different kinds never resolve (gen_kinds_separate). + - convert the right operand, * / by numbers keep the unit, quantity / "
+             "quantity is a number (add_converts_right, scale_keeps_unit, ratio_is_number). Partial in one step: that execute_code (text substitution, "
+             "tokenizer, parser, interpreter) multiplies by the code's factor is the hypothesis ExecIsMult, decided bit-for-bit by correspondence and "
+             "against exact rationals on all 33x33 pairs. Three defects (two wrong factors, cross-kind conversion) were repaired in /repo.",
+        note="Trusted: Lean kernel + 3 axioms; translator's reading of code texts (cross-checked by an independent Python reading and by the implementation); doubles compared rel 1e-9.",
+        ref="§7 C12"),
+})
+
 NOT_YET = {}
 
 
